@@ -27,7 +27,8 @@ ALLOWED_AXIOMS = {'propext', 'Classical.choice', 'Quot.sound'}
 TRUSTED_BASE = [
     'Lean 4.33 kernel (type-checks every theorem; thorough tier re-checks the .olean files with leanchecker)',
     'axioms: at most propext, Classical.choice, Quot.sound (audited with #print axioms on every run); no native_decide, bv_decide, sorry, admit, own axioms',
-    'hand-written Lean model lean/MidoModel/*.lean as a rendering of the Python source, tied to the working tree by the correspondence check of this run and by tables regenerated from the source (MidoModel/Generated)',
+    'hand-written Lean model lean/MidoModel/*.lean as a rendering of the Python source, tied to the working tree by the correspondence check of this run, by tables regenerated from the source (MidoModel/Generated/Tables.lean) and, for the byte-level core (encode.py, decode.py, checks.py, tokenizer.py, the numeric part of meta.py), by definitions TRANSLATED from the source text on this run (harness/py2lean.py -> MidoModel/Generated/Src.lean) that are proved equal to the hand model (MidoProofs/SrcTie)',
+    'the translator harness/py2lean.py (syntax-directed, ~600 lines) and the operator semantics MidoModel/PySem.lean (value semantics for lists: aliasing is not modelled; float("inf") as 0 in spec lengths); isinstance() tests are resolved from the declared parameter types',
     'the harness: generators, canonicalisation, diff, table extractor (harness/*.py)',
     'Lean compiler and runtime of the native driver mido_driver (its output, not the kernel, is diffed against the implementation)',
     'CPython 3.12 semantics of ints, lists, dicts, str methods, struct, codecs, threading.RLock, sockets',
@@ -85,26 +86,37 @@ def axiom_audit(prop_id):
 
     Returns dict theorem -> list of axioms, plus the raw log.  A theorem whose
     module does not compile is simply missing from the dict."""
-    path = os.path.join('MidoProofs', 'Audit', prop_id + '.lean')
-    rc, out = _lake(['env', 'lean', path])
     res = {}
-    text = out.replace('\n ', ' ').replace('\n  ', ' ')
-    for m in _AX_RE.finditer(text):
-        res[m.group(1)] = [a.strip() for a in m.group(2).split(',') if a.strip()]
-    for m in _NOAX_RE.finditer(text):
-        res[m.group(1)] = []
-    return res, rc, out
+    rc_all, out_all = 0, ''
+    # the property theorems and the source-tie theorems are audited separately, so that a broken source tie
+    # does not hide that the property theorems themselves still check
+    for suffix in ('', 'Src'):
+        path = os.path.join('MidoProofs', 'Audit', prop_id + suffix + '.lean')
+        if not os.path.exists(os.path.join(LEAN_DIR, path)):
+            continue
+        rc, out = _lake(['env', 'lean', path])
+        rc_all |= rc
+        out_all += out
+        text = out.replace('\n ', ' ').replace('\n  ', ' ')
+        for m in _AX_RE.finditer(text):
+            res[m.group(1)] = [a.strip() for a in m.group(2).split(',') if a.strip()]
+        for m in _NOAX_RE.finditer(text):
+            res[m.group(1)] = []
+    return res, rc_all, out_all
 
 
 def audit_theorem_names(prop_id):
     """The obligations registered for a property: every `#print axioms X` line."""
-    path = os.path.join(LEAN_DIR, 'MidoProofs', 'Audit', prop_id + '.lean')
     names = []
-    with open(path) as f:
-        for line in f:
-            m = re.match(r'\s*#print axioms\s+(\S+)', line)
-            if m:
-                names.append(m.group(1))
+    for suffix in ('', 'Src'):
+        path = os.path.join(LEAN_DIR, 'MidoProofs', 'Audit', prop_id + suffix + '.lean')
+        if not os.path.exists(path):
+            continue
+        with open(path) as f:
+            for line in f:
+                m = re.match(r'\s*#print axioms\s+(\S+)', line)
+                if m and m.group(1) not in names:
+                    names.append(m.group(1))
     return names
 
 
@@ -180,6 +192,21 @@ def load_known(prop_id):
 # The check context
 # --------------------------------------------------------------------------
 
+# Source tie: which generated-from-source modules (MidoProofs/SrcTie/*.lean over MidoModel/Generated/Src.lean,
+# written by harness/py2lean.py on every run) belong to which property, and which source files they render.
+SRC_TIE = {
+    'C01': ['Codec'], 'C02': ['Codec'], 'C03': ['Codec'],
+    'C04': ['Tok'], 'C05': ['Tok'], 'C06': ['Tok'], 'C18': ['Tok'], 'C19': ['Tok'],
+    'C07': ['Vlq'], 'C08': ['Vlq'], 'C09': ['Meta', 'Vlq'],
+}
+SRC_TIE_FILES = {
+    'Codec': ['mido/messages/encode.py', 'mido/messages/decode.py', 'mido/messages/checks.py'],
+    'Tok': ['mido/tokenizer.py'],
+    'Meta': ['mido/midifiles/meta.py'],
+    'Vlq': ['mido/midifiles/meta.py'],
+}
+
+
 class Check:
     def __init__(self, prop_id, tier, seed, replay=None):
         self.id = prop_id
@@ -215,6 +242,20 @@ class Check:
             extract_tables.regenerate()
         except Exception as e:  # extractor cannot read the tree: tie is broken
             self.broken.append(f'table extraction failed: {type(e).__name__}: {e}')
+        # the translated-from-source definitions (and their equivalence proofs) of this property
+        tie_mods = [m for m in SRC_TIE.get(self.id, []) if os.path.exists(os.path.join(LEAN_DIR, 'MidoProofs', 'SrcTie', m + '.lean'))]
+        if tie_mods:
+            from . import py2lean
+            try:
+                fails = py2lean.regenerate()
+            except Exception as e:
+                fails = [f'translator crashed: {type(e).__name__}: {e}']
+                tie_files = None
+            files = {f for m in tie_mods for f in SRC_TIE_FILES[m]}
+            for f in fails:
+                if any(f.startswith(x) for x in files) or f.startswith('translator') or f.startswith('dispatch'):
+                    self.broken.append('source translation failed (py2lean): ' + f)
+            extra_targets = list(extra_targets) + [f'MidoProofs.SrcTie.{m}' for m in tie_mods]
         self.obligations = audit_theorem_names(self.id)
         self.extra_targets = [t for t in extra_targets if t.startswith('MidoProofs.')]
         targets = [f'MidoProofs.Props.{self.id}', 'MidoProofs.TableTie', 'mido_driver'] + list(extra_targets)
